@@ -1086,13 +1086,16 @@ def p_qualifier(p):
     qname = p[1]
     ns = p.parser.target_namespace or p.parser.handle.default_namespace
     qval = None
+    qval_specified = False  # Distinguishes 'Qual' from 'Qual (NULL)'
     flavorlist = []
     if len(p) == 3:
         qval = p[2]
+        qval_specified = True
     elif len(p) == 4:
         flavorlist = p[3]
     elif len(p) == 5:
         qval = p[2]
+        qval_specified = True
         flavorlist = p[4]
     try:
         qualdecl = p.parser.qualcache[ns][qname]
@@ -1137,7 +1140,7 @@ def p_qualifier(p):
             parser_token=p)
 
     flavors = _build_flavors(p, flavorlist, qualdecl, qualdecl.name)
-    if qval is None:
+    if not qval_specified:
         if qualdecl.type == 'boolean':
             qval = True
         else:
